@@ -1041,9 +1041,15 @@ func (vc *VC) appendOp(st *State, s, t Val, pos token.Position) Val {
 		inner := arraySort(sortIdx, lf.sort)
 		hs := arraySort(sortRef, inner)
 		h := vc.heapGet(st, hn, hs)
+		litLeaf := litLeafTerms(t, lf)
 		src := func(k string) string { // k-th appended element
 			if tIsStr {
 				return sx("s.at", t.S, k)
+			}
+			if litLeaf != nil {
+				if kk, ok := isSmallLit(k, 15); ok && int(kk) < len(litLeaf) {
+					return litLeaf[kk]
+				}
 			}
 			return sel(sel(h, t.Sl[0]), bvAdd(t.Sl[1], k))
 		}
@@ -1175,7 +1181,7 @@ func (vc *VC) makeSlice(st *State, t types.Type, ln, cp Val, pos token.Position)
 		zt, _ := flatten(vc.zero(lf.T))
 		_ = zt
 		zl := vc.zeroLeaf(lf)
-		vc.heapSet(st, hn, hs, vc.sc.define("h", hs, store(h, r, fmt.Sprintf("((as const %s) %s)", inner, zl))))
+		vc.heapSet(st, hn, hs, vc.sc.define("h", hs, store(h, r, vc.sc.constArray(inner, zl))))
 	}
 	return Val{K: KSlice, T: t, Sl: [4]string{r, i64(0), l, c}}
 }
@@ -1199,7 +1205,7 @@ func (vc *VC) zeroLeaf(lf leaf) string {
 		// array leaf: const array of element zero
 		at := lf.T.Underlying().(*types.Array)
 		el := leavesOf(at.Elem())[0]
-		return fmt.Sprintf("((as const %s) %s)", lf.sort, vc.zeroLeaf(el))
+		return vc.sc.constArray(lf.sort, vc.zeroLeaf(el))
 	}
 	return "0"
 }
@@ -1235,9 +1241,15 @@ func (vc *VC) appendOwned(st *State, s, t Val, pos token.Position) Val {
 		inner := arraySort(sortIdx, lf.sort)
 		hs := arraySort(sortRef, inner)
 		h := vc.heapGet(st, hn, hs)
+		litLeaf := litLeafTerms(t, lf)
 		src := func(k string) string {
 			if tIsStr {
 				return sx("s.at", t.S, k)
+			}
+			if litLeaf != nil {
+				if kk, ok := isSmallLit(k, 15); ok && int(kk) < len(litLeaf) {
+					return litLeaf[kk]
+				}
 			}
 			return sel(sel(h, t.Sl[0]), bvAdd(t.Sl[1], k))
 		}
@@ -1264,4 +1276,31 @@ func (vc *VC) appendOwned(st *State, s, t Val, pos token.Position) Val {
 		vc.heapSet(st, hn, hs, vc.sc.define("h", hs, store(h, r, na)))
 	}
 	return Val{K: KSlice, T: s.T, Sl: [4]string{r, i64(0), n, ncap}, Own: true}
+}
+
+// litLeafTerms: for a literal variadic operand, the terms of leaf lf of each element.
+func litLeafTerms(t Val, lf leaf) []string {
+	if t.Lit == nil {
+		return nil
+	}
+	et := t.T.Underlying().(*types.Slice).Elem()
+	ls := leavesOf(et)
+	idx := -1
+	for i, l := range ls {
+		if l.path == lf.path {
+			idx = i
+		}
+	}
+	if idx < 0 {
+		return nil
+	}
+	out := make([]string, len(t.Lit))
+	for i, e := range t.Lit {
+		f, ok := flatten(e)
+		if !ok || len(f) != len(ls) {
+			return nil
+		}
+		out[i] = f[idx]
+	}
+	return out
 }
